@@ -99,8 +99,8 @@ def make_mutate(kernel, n, d, with_blobs, bounds_kind="hard"):
                                  reflective=reflective, have_blobs=with_blobs)
         stub = RandomStub(Draws(ctx), max_calls=(2 if kernel == "tpcn" else 1) * n + 2)
         noadapt = lambda self, c, mean_accept: None
-        with exp_as_uf(), patched(mcmc, np=mcmc_proxy(stub)), patched_attr(mcmc.TPCNRunner, _adapt_sigma=noadapt), \
-                patched_attr(mcmc.RWMRunner, _adapt_sigma=noadapt):
+        with exp_as_uf(), patched(mcmc, np=mcmc_proxy(stub)), patched_attr(mcmc.TPCNRunner, _adapt_sigma=noadapt, _check_convergence=lambda self, acc: True), \
+                patched_attr(mcmc.RWMRunner, _adapt_sigma=noadapt, _check_convergence=lambda self, acc: True):
             mut.run(ms)
         c = st._current
         check_rows(ctx, cb, "rows-coherent-after-mutation", c["u"], c["x"], c["logl"], c["blobs"] if with_blobs else None, n, d)
@@ -147,7 +147,7 @@ def make_mutate(kernel, n, d, with_blobs, bounds_kind="hard"):
                       bounds=f"one kernel iteration (n_steps=n_max_steps=1), {n} walkers, d={d}, K=1, boundary {bounds_kind}, "
                              f"at most one proposal redraw in total (random-call budget)",
                       stubs=["np.random.* -> symbolic draws", "np.nan_to_num -> identity on reals", "callbacks -> uninterpreted functions",
-                             "_adapt_sigma -> no-op (step-size adaptation only feeds diagnostics and the number of further steps)"],
+                             "_adapt_sigma -> no-op, _check_convergence -> True (exactly one kernel iteration; adaptation only feeds diagnostics and the number of further steps)"],
                       allow_bound="paths needing more proposal redraws than the draw budget are cut (stated bound)",
                       theory="QF_UFNRA", timeout_ms=20000, max_paths=3000)
 
